@@ -18,7 +18,7 @@ NAMES = ["a", "b", "c", "x1", "_p", "data", "values", "items", "0", "12", "é", 
          "\u212b_px", "\u00c5_px", "cafe\u0301", "caf\u00e9", "\u00b5_abs", "\u03bc_abs", "\ufb01le",
          "\u2126", "\uff21",
          # look like store internals or numbers with leading zeros
-         "007", "c", "0.0", "-1"]
+         "007", "c", "0.0", "-1", "a ", " a", "Tensor", "DATA"]
 STRS = ["", "a", "hello world", "é名", "a.b/c", "it's \"q\"", "0", "None", "true", " lead", "x" * 40,
         "line\nbreak", "tab\t", "{}", "[1]", "1e5", "nan",
         # strings that look like encodings of other values (in-band sentinels of JSON / YAML / repr)
@@ -75,6 +75,8 @@ def nd_from_spec(s):
         flat = g.integers(-10 ** 6, 10 ** 6, n).astype(dt)
     else:
         raise ValueError(f"dtype {dt}")
+    if s.get("const") and dt.kind in "biufc":
+        flat = np.zeros(n, dtype=dt) if s["const"] == "zeros" else np.ones(n, dtype=dt)
     arr = flat.reshape(shape)
     order = s.get("order", "C")
     if order == "F" and arr.ndim >= 2:
@@ -619,10 +621,16 @@ def gen_nd(rng, opts, big=False):
         dt = rng.pick(["float32", "float64", "int16", "complex64"])
         fillmode = rng.pick(["rand", "zeros"])
         s = {"k": "nd", "dtype": dt, "shape": shape, "fill": rng.randrange(1000), "special": False}
+        if fillmode == "zeros":
+            s["const"] = "zeros"      # a multi-chunk array of fill values: no chunk files at all
         return s
     shape = list(rng.pick(SHAPES))
     order = rng.weighted([("C", 6), ("F", 2), ("strided", 1), ("ro", 1), ("neg", 0.7), ("sliced_big", 0.7)])
-    return {"k": "nd", "dtype": dt, "shape": shape, "fill": rng.randrange(1000), "order": order}
+    s = {"k": "nd", "dtype": dt, "shape": shape, "fill": rng.randrange(1000), "order": order}
+    const = rng.fork("const").pick([None] * 10 + ["zeros", "ones"])
+    if const:
+        s["const"] = const     # every element equal to the fill value / to one (chunks may be omitted)
+    return s
 
 
 def gen_npscalar(rng):
